@@ -72,6 +72,12 @@ def signature(clause, doc, t):
                 else:
                     culprits.add("value or verdict of %s changed" % ("a valid target" if r["valid"] else "a target"))
         return "C16|%s|%s|%s" % (clause, fl, ";".join(sorted(culprits)) or "cause not classified")
+    if doc.get("scale"):
+        sc = doc["scale"]
+        size = "<= 300" if sc["len"] <= 300 else "~1000" if sc["len"] <= 1001 else "> 1001"
+        return "C16|%s|%s|target path of %s elements%s|%s" % (
+            clause, fl, size, " (cycle)" if sc["cycle"] else " (one bad link)" if sc["bad"] else "",
+            _exc(o1["err"]) or _exc(o2["err"]) or t.get("stage", "-"))
     flds = sorted({it["fld"] for it in doc["items"] if it["fld"] != "ok"})
     spelt = sorted({x.split("spelling ", 1)[1] for x in subs if "spelling " in x})
     if spelt:
@@ -84,7 +90,10 @@ def signature(clause, doc, t):
 
 def run_docs(ctx, docs, nproc):
     jobs = [(d, ctx.scratch) for d in docs]
-    results = wdpool.run_jobs(certload.execute, jobs, nproc=nproc, budget=2.0, retry_budget=6.0, max_hangs=6)
+    # a document with thousands of elements gets proportionally more time (2 s per 300 elements)
+    scale = [max(1, (d["scale"]["len"] + 299) // 300) if d.get("scale") else 1 for d in docs]
+    results = wdpool.run_jobs(certload.execute, jobs, nproc=nproc, budget=2.0, retry_budget=6.0, max_hangs=6,
+                              scale=scale)
     out = []
     for d, r in zip(docs, results):
         if r["status"] == "ok":
@@ -109,7 +118,9 @@ def run_docs(ctx, docs, nproc):
 
 def payload_of(tid, t):
     def o(x):
-        return {k: x[k] for k in ("outcome", "root", "targets", "graph", "val", "res")}
+        d = {k: x[k] for k in ("outcome", "root", "targets", "val", "res")}
+        d["graph"] = {g["name"]: {"by": g["by"]} for g in x["graph"]}
+        return d
     return {"id": tid, "o1": o(t["o1"]), "save": t["save"], "o2": o(t["o2"])}
 
 
@@ -126,6 +137,9 @@ def run(ctx):
         "version-2 payloads are built by the harness's own encoders (X.509 via `cryptography`, report body / "
         "quote layouts from the OpenEnclave struct definitions); X.509 validity windows are >= 2 days away from "
         "now; P-256 signatures use random nonces (bytes differ between runs, abstract outcome does not)",
+        "path length: one target path of 5 ... 3000 elements (version 2, x509_pem chain under a quote; version 1 has "
+        "only four element names, so no long path exists there); such a document gets 2 s per 300 elements; the "
+        "trace checker walks these paths recursively (JVM thread stack raised to 512 MB for the validation runs)",
         "field-content classes inside one abstract class (which bad hex string, which non-list value) are "
         "seeded samples",
     ]
@@ -163,9 +177,11 @@ def run(ctx):
     res.coverage["negative_configs_violated"] = negs
     # 2. all behaviours ------------------------------------------------------------------------
     behaviours = []
-    for cfg, label in ctx.pick([("Gen_CertLoad.cfg", "Gen_CertLoad"), ("Gen_CertLoad2.cfg", "Gen_CertLoad2")],
+    for cfg, label in ctx.pick([("Gen_CertLoad.cfg", "Gen_CertLoad"), ("Gen_CertLoad2.cfg", "Gen_CertLoad2"),
+                                ("GenS_CertLoad.cfg", "GenS_CertLoad (3 names, one edge stands for a long run)")],
                                [("GenT_CertLoad.cfg", "GenT_CertLoad (<=4 items, <=1 target)"),
-                                ("Gen_CertLoad2.cfg", "Gen_CertLoad2")]):
+                                ("Gen_CertLoad2.cfg", "Gen_CertLoad2"),
+                                ("GenS_CertLoad.cfg", "GenS_CertLoad (3 names, one edge stands for a long run)")]):
         bs, rg = tlc.generate("GenCertLoad", cfg)
         res.add_tlc(rg, label)
         behaviours += bs
@@ -182,7 +198,8 @@ def run(ctx):
         byname = {it["name"]: b["by"][j] for j, it in enumerate(b["items"])}
         rootshape = ("root" in byname, byname.get("root"), byname.get(byname.get("root")), "root" in b["targets"])
         key = (b["phase"], b["ver"], b["tgtc"], b["elsc"], tuple(sorted({it["fld"] for it in b["items"]})), rootshape,
-               tuple(sorted({it["name"] for it in b["items"] if it["name"] in ("missing", "bad", "nondict")})))
+               tuple(sorted({it["name"] for it in b["items"] if it["name"] in ("missing", "bad", "nondict")})),
+               (b.get("stretch") or {}).get("cls"))
         if key not in seen:
             seen.add(key)
             firsts.append(i)
@@ -202,6 +219,17 @@ def run(ctx):
     directed = certload.directed_docs(ctx.rng)
     docs += directed
     res.coverage["directed_documents"] = len(directed)
+    # path length as such: one target path of 5 ... 3000 elements (well formed, one bad link near the top /
+    # middle / bottom, a cycle of that length)
+    if ctx.quick:
+        scaled = certload.scale_docs(ctx.rng, (5, 50, 255, 256, 257, 300, 999, 1000, 1001)) + \
+            certload.scale_docs(ctx.rng, (1500,), ("ok", "middle", "cycle")) + \
+            certload.scale_docs(ctx.rng, (3000,), ("ok",))
+    else:
+        scaled = certload.scale_docs(ctx.rng)
+    docs += scaled
+    res.coverage["scale_documents"] = {"count": len(scaled),
+                                       "path_lengths": sorted({d["scale"]["len"] for d in scaled})}
     # 5. the real loaders ------------------------------------------------------------------------
     obs, pstats = run_docs(ctx, docs, nproc)
     res.coverage["watchdog"] = pstats
@@ -224,7 +252,12 @@ def run(ctx):
     res.coverage["model_drift"] = drift
     # 6. TLC judges ----------------------------------------------------------------------------------
     payload = [payload_of(k + 1, t) for k, t in enumerate(obs)]
-    verdicts, stats = tlc.validate("TraceCertLoad", "Trace_CertLoad.cfg", payload, shards=ctx.pick(4, 8))
+    # (TLC walks a 3000-element path recursively: give its threads the stack for it)
+    os.environ["JAVA_TOOL_OPTIONS"] = "-Xss512m"
+    try:
+        verdicts, stats = tlc.validate("TraceCertLoad", "Trace_CertLoad.cfg", payload, shards=ctx.pick(4, 8))
+    finally:
+        os.environ.pop("JAVA_TOOL_OPTIONS", None)
     res.checker_cmds.append("tlc -workers 1 -config Trace_CertLoad.cfg TraceCertLoad (x%d shards)" % stats["jvms"])
     accepted = 0
     tally = {"error": 0, "loaded": 0, "loaded_with_valid_verdict": 0, "round_trips": 0, "max_elements": 0,
@@ -269,7 +302,8 @@ def run(ctx):
     for k, t in enumerate(obs):
         if len(doctored) >= 40:
             break
-        if verdicts[k + 1]["ok"] and t["o1"]["outcome"] == "loaded" and t["o1"]["res"] and t["o1"]["graph"]:
+        if verdicts[k + 1]["ok"] and t["o1"]["outcome"] == "loaded" and t["o1"]["res"] and t["o1"]["graph"] \
+                and len(t["o1"]["graph"]) < 40:
             p = json.loads(json.dumps(payload_of(len(doctored) + 1, t)))
             how = len(doctored) % 4
             if how == 0:
@@ -278,10 +312,9 @@ def run(ctx):
                 p["o1"]["res"] = p["o1"]["res"][1:]                                    # a target without verdict
             elif how == 2:
                 tgt = p["o1"]["targets"][0]                                            # a cycle through the target
-                for g in p["o1"]["graph"]:
-                    if g["name"] == tgt:
-                        # (an element named like the root that signs itself DOES reach the root: dangle it)
-                        g["by"] = tgt if tgt != p["o1"]["root"] else "s:__nowhere__"
+                if tgt in p["o1"]["graph"]:
+                    # (an element named like the root that signs itself DOES reach the root: dangle it)
+                    p["o1"]["graph"][tgt]["by"] = tgt if tgt != p["o1"]["root"] else "s:__nowhere__"
             else:
                 p["o1"]["val"] = "hang"
             doctored.append(p)
@@ -307,6 +340,7 @@ def replay(ctx, path):
     doc = data["replay"]["doc"]
     obs, _ = run_docs(ctx, [doc], 1)
     t = obs[0]
+    os.environ["JAVA_TOOL_OPTIONS"] = "-Xss512m"
     verdicts, _ = tlc.validate("TraceCertLoad", "Trace_CertLoad.cfg", [payload_of(1, t)])
     r = certload.render(doc)
     print(json.dumps({"doc": doc, "file": r["text"], "root": r["root"], "payload": r["sub"],
